@@ -318,6 +318,21 @@ UNITS = {
             dict(I(RAW, r"^impl < T , A : Allocator > Drop for RawDrain < '_ , T , A >$", 'drop', impl='RawDrain<T, A>|<T, A: Allocator>', key='RawDrain::drop'), in_drain=True),
         ],
     ),
+    # C11: clone_from_impl: control bytes verbatim, every FULL bucket a clone of the source's
+    'clone': dict(
+        widths=[16, 8],
+        prelude='preludes/ctrl.rs',
+        prelude_extra=['preludes/clone.rs'],
+        specs=['contracts/ctrl.vspec', 'contracts/clone.vspec'],
+        lemmas=['lemmas/ctrl_lemmas.rs', 'lemmas/mask_lemmas.rs', 'lemmas/probe_lemmas.rs', 'lemmas/loop_lemmas.rs', 'lemmas/clone_lemmas.rs'],
+        extra='clone_rules',
+        items=[
+            I(RAW, None, 'bucket_mask_to_capacity'),
+            I(RAW, r'^impl RawTableInner$', 'buckets', impl='RawTableInner'),
+            I(RAW, r'^impl RawTableInner$', 'num_ctrl_bytes', impl='RawTableInner'),
+            I(RAW, r'^impl < T : Clone , A : Allocator \+ Clone > RawTable < T , A >$', 'clone_from_impl', impl='RawTable<T>', key='RawTable::clone_from_impl'),
+        ],
+    ),
 }
 
 
@@ -1241,6 +1256,58 @@ def dropglue_rules(toks, i, out, hit):
         hit('R31_table_moved_back_into_the_map')
         return c + 1
     return None
+
+
+def clone_rules(toks, i, out, hit):
+    """unit `clone`:
+       R5e   `S.table.ctrl(0).copy_to_nonoverlapping(D.table.ctrl(0), N)` -> `D.table.ctrl_copy_from(&S.table, N)`
+       R18e  the progress guard `let mut guard = guard((0, &mut *self), CLOSURE);` and `mem::forget(guard);` are dropped,
+             `guard.1` is `self`, the progress marker `guard.0 = E;` (read only by the closure when unwinding) is dropped
+       R19c  `TO.write(FROM.as_ref().clone())` -> `self.elem_clone_from(source, &FROM, &TO)`"""
+    t = toks[i]
+    n = len(toks)
+    T = extract.T
+
+    def seq(k, *texts):
+        return k + len(texts) <= n and all(toks[k + a].text == x for a, x in enumerate(texts))
+    if t.kind == 'id' and seq(i + 1, '.', 'table', '.', 'ctrl', '(', '0', ')', '.', 'copy_to_nonoverlapping', '(') and toks[i + 11].kind == 'id' \
+            and seq(i + 12, '.', 'table', '.', 'ctrl', '(', '0', ')', ','):
+        c = extract._find_close(toks, i + 10)
+        S, D = t.text, toks[i + 11].text
+        N = extract.rewrite(toks[i + 20:c], set(), _HITS, clone_rules)
+        out.extend([T(D, t.gap), T('.', ''), T('table', ''), T('.', ''), T('ctrl_copy_from', ''), T('(', ''), T('&', ''), T(S, ''), T('.', ''), T('table', ''), T(',', '')] + N + [T(')', '')])
+        hit('R5e_ctrl_bytes_copied_from_another_table')
+        return c + 1
+    if t.text == 'let' and seq(i + 1, 'mut', 'guard', '=', 'guard', '(', '(', '0', ',', '&', 'mut', '*', 'self', ')', ','):
+        c = extract._find_close(toks, i + 5)
+        if toks[c + 1].text != ';':
+            raise ExtractError('R18e: unexpected shape of the progress guard')
+        hit('R18e_progress_guard_elided')
+        return c + 2
+    if t.text == 'mem' and seq(i + 1, ':', ':', 'forget', '(', 'guard', ')', ';'):
+        hit('R18e_progress_guard_elided')
+        return i + 8
+    if t.text == 'guard' and seq(i + 1, '.', '1'):
+        out.append(T('self', t.gap))
+        hit('R18e_guard_field_to_self')
+        return i + 3
+    if t.text == 'guard' and seq(i + 1, '.', '0', '='):
+        k = i + 4
+        while toks[k].text != ';':
+            k += 1
+        hit('R18e_progress_marker_dropped')
+        return k + 1
+    if t.kind == 'id' and seq(i + 1, '.', 'write', '(') and toks[i + 4].kind == 'id' and seq(i + 5, '.', 'as_ref', '(', ')', '.', 'clone', '(', ')', ')'):
+        out.extend([T('self', t.gap), T('.', ''), T('elem_clone_from', ''), T('(', ''), T('source', ''), T(',', ''), T('&'), T(toks[i + 4].text, ''), T(',', ''), T('&'), T(t.text, ''), T(')', '')])
+        hit('R19c_element_clone_written_to_bucket')
+        return i + 14
+    if t.kind == 'id' and t.text == 'for':
+        _FLAGS['top_rules'] = clone_rules
+        try:
+            return ctrl_rules(toks, i, out, hit)
+        finally:
+            _FLAGS['top_rules'] = None
+    return ctrl_rules(toks, i, out, hit)
 
 
 def generate(unit_name, width, outdir):
